@@ -169,6 +169,20 @@ class FaultyPool:
         return self._pool.close()
 
 
+def fault_is_what_was_raised(exc):
+    """The injected fault itself reaches the caller (possibly wrapped by an explicit `raise X from fault`, or re-created
+    by the pool's transport with its text). An exception that merely has the fault as implicit __context__ was raised
+    *while handling it* (e.g. by a failing clean-up step) and masks it."""
+    seen = set()
+    e = exc
+    while e is not None and id(e) not in seen:
+        seen.add(id(e))
+        if isinstance(e, (InjectedFault, InjectedBaseFault, InjectedOSFault)) or "injected at" in str(e):
+            return True
+        e = e.__cause__
+    return False
+
+
 def chain_has_fault(exc):
     seen = set()
     stack = [exc]
